@@ -439,11 +439,23 @@ def s4_forest_keys(ctx) -> None:
     if n < 3:
         ctx.floor("S4", 99)
     sh = P.need_method("AbstractRule", "shifts", own=True)
-    t = norm(sh.node)
-    if "self.strategy.shifts(self.comb_class, self.children)" in t:
-        ctx.ok("S4", "Rule.shifts() = strategy.shifts(comb_class, children) of the rule's own classes")
+    ctx.analysed(sh)
+    want = "self.strategy.shifts(self.comb_class, self.children)"
+    asg = [n for n in walk_local(sh.node) if isinstance(n, (ast.Assign, ast.AnnAssign)) and any(norm(t) == "self._shifts" for t in (n.targets if isinstance(n, ast.Assign) else [n.target]))]
+    rets = [r for r in C.returns_of(sh.node) if r.value is not None]
+    vals = [norm(D.expanded(sh.node, n.value)) for n in asg] + [norm(D.expanded(sh.node, r.value)) for r in rets if norm(r.value) != "self._shifts"]
+    if vals and all(v == want for v in vals):
+        ctx.ok("S4", "Rule.shifts() = strategy.shifts(comb_class, children) of the rule's own classes, on every path")
     else:
-        ctx.violation("S4", sh.node, "AbstractRule.shifts must be strategy.shifts(self.comb_class, self.children)", construct="AbstractRule.shifts")
+        other = [v for v in vals if v != want]
+        ctx.violation("S4", asg[0] if asg else sh.node, f"AbstractRule.shifts must be {want} on every path; it can also be `{(other or ['?'])[0][:70]}`: a made-up shift "
+                      "tells the table method (and the reverse rule built from it) that terms are available which the constructor then reads beyond", construct="AbstractRule.shifts")
+    # the counted child's entry is dropped by position, never by value (two children can have the same shift)
+    rs = P.need_method("ReverseRule", "shifts", own=True)
+    for c in walk_local(rs.node):
+        if isinstance(c, ast.Call) and isinstance(c.func, ast.Attribute) and c.func.attr in ("remove", "index", "discard"):
+            ctx.violation("S4", c, f"ReverseRule.shifts selects an entry of the shifts by value (`{norm(c)[:60]}`): when two children have the same shift the entry of the wrong "
+                          "child goes, and positions no longer correspond to children")
 
 
 # ------------------------------------------------------------------------ S0
